@@ -270,8 +270,16 @@ def run_property(prop: Property, tier='quick', seed=0, only=None):
         if b.stands_for in need_fallback and not res.failures:
             degraded.append(b.stands_for)
 
-    # undecided obligations without a passing bounded fallback stay undecided
-    still_undecided = [(c, n, r) for c, n, r in undecided if c is None or c.name not in degraded]
+    # An undecided obligation (solver unknown, contract detached from the code, syntax outside the subset) is not
+    # a violation.  When the property has bounded stand-ins on the real code and they all pass, the run degrades
+    # (exit 0, level drops, DEGRADED line); without any passing bounded run it stays undecided (exit 2).
+    bounded_ok = bool(bounded_reports) and not any(b['failures'] for b in bounded_reports)
+    if bounded_ok:
+        for c, n, r in undecided:
+            degraded.append(n)
+        still_undecided = []
+    else:
+        still_undecided = list(undecided)
 
     # ---- failed obligations -> replay -> known finding or violation
     seen_names = set()
@@ -351,11 +359,13 @@ def run_property(prop: Property, tier='quick', seed=0, only=None):
     for c, n, r in still_undecided:
         lines.append(f'UNDECIDED property={prop.id} obligation={n} reason={r}')
     for d in sorted(set(degraded)):
-        lines.append(f'DEGRADED property={prop.id} {d}: VC undecided, bounded stand-in passed')
+        reason = next((r for _, n, r in undecided if n == d), '')
+        lines.append(f'DEGRADED property={prop.id} obligation={d} undecided ({reason[:120]}); the bounded stand-ins '
+                     f'on the real code passed')
 
     # ---- evidence
     level = prop.level
-    if level == 'proof' and (discharged < total_obl or total_obl == 0):
+    if level == 'proof' and (discharged < total_obl or total_obl == 0 or degraded):
         level = 'other'
     decisive_bounded = [b.name for b in prop.bounded if b.decisive]
     cov = dict(
